@@ -110,4 +110,29 @@ PROPS = {
         "loff_monotone / first_bin_low for CSI); the refine step is tied by correspondence, not by a theorem",
         assumptions=["htslib's region query contract", "htslib-written CSI indexes satisfy loff_monotone (monitored on every generated index)"],
     ),
+    "C14": dict(
+        units=["GenWorkers"],
+        props_files=["Props/C14.v"],
+        driver="c14",
+        rule="(a) generated pool scenarios: tasks 1..32, workers 1..8, failing set first/last/middle/random (0..3 tasks), raise / "
+        "os._exit / mixed, random task durations, with and without results_as_completed, run in separate processes under a "
+        "wall-clock bound; (b) a fault in a partition task of explode / encode / plink.convert for worker_processes 0,1,2,4. "
+        "distinct = distinct scenario; non-trivial = at least one failing task",
+        status="partial: the bookkeeping theorems cover every task count, failing set, failure kind and completion order; that "
+        "every future eventually resolves, and that a dead worker is reported as a broken pool, is concurrent.futures' behaviour "
+        "(exercised by the fault injection under a time bound, not modelled)",
+        assumptions=["every submitted future eventually resolves (concurrent.futures)", "a worker process that dies makes its pool report BrokenProcessPool"],
+    ),
+    "C18": dict(
+        units=["GenReadPath"],
+        props_files=["Props/C18.v"],
+        driver="c18",
+        rule="stores exploded from generated VCFs with 4 target partitions and column chunks of a few hundred bytes; every "
+        "data-bearing file (quick: a stratified sample) x {deleted, truncated: all lengths for small files, else 0, 1, multiples of "
+        "8, size-1 and random}; readers: .values, iter_values over the column and over sub-ranges, and (sampled) encode. "
+        "distinct = distinct (file, damage); every case is non-trivial",
+        status="partial: the theorem shows that no read path skips or partially decodes an announced file; that Blosc / pickle / json "
+        "reject a truncated encoding is a premise validated only by this fault enumeration",
+        assumptions=["Blosc decode + unpickle, pickle.load of chunk_index and json.load reject every strict prefix of a valid encoding"],
+    ),
 }
